@@ -146,4 +146,90 @@ theorem fileName_of_newRecord (name ext : Str) (hn : Plain name) (he : Plain ext
   rw [bytesFromStr_short _ 8 (by rw [upper_length]; exact hn8), bytesFromStr_short _ 3 (by rw [upper_length]; exact he3),
     rstrip_padded _ _ (upper_plain name hn), rstrip_padded _ _ (upper_plain ext he)]
 
+
+/-! ### the extension an entry is stored under -/
+
+theorem forced_rows : ∀ r ∈ Gen.Disk.processors, ∀ x, r.2.2.2 = some x → r.1 = Tape.str "BAS,A" ∧ x = Tape.str "BAS" := by decide
+theorem default_not_forced : Gen.Disk.defaultProcessor.2.2 = none := rfl
+
+/-- the kind table forces an extension for the key `BAS,A` only (`BAS`): the stored extension is the extension, or `BAS` when
+    the extension with its option is `BAS,A` -/
+theorem dispatch_stored_ext (n e w : Str) :
+    (dispatch n e w).2.2 = e ∨ (w = Tape.str "BAS,A" ∧ (dispatch n e w).2.2 = Tape.str "BAS") := by
+  unfold dispatch
+  dsimp only
+  cases hf : Gen.Disk.processors.find? (fun r => r.1 == n ++ [46] ++ e) with
+  | some r =>
+    simp only
+    obtain ⟨k, kk, ff, forced⟩ := r
+    cases hfo : forced with
+    | none => left; simp
+    | some x =>
+      exfalso
+      have hm := List.mem_of_find?_eq_some hf
+      have hk : k = n ++ [46] ++ e := by simpa using List.find?_some hf
+      have := (forced_rows _ hm x (by simp [hfo])).1
+      simp only at this
+      rw [hk] at this
+      have h46 : 46 ∈ Tape.str "BAS,A" := by rw [← this]; simp
+      revert h46; decide
+  | none =>
+    simp only
+    cases hw : Gen.Disk.processors.find? (fun r => r.1 == w) with
+    | none => left; simp [default_not_forced]
+    | some r =>
+      simp only
+      obtain ⟨k, kk, ff, forced⟩ := r
+      cases hfo : forced with
+      | none => left; simp
+      | some x =>
+        right
+        have hm := List.mem_of_find?_eq_some hw
+        have hk : k = w := by simpa using List.find?_some hw
+        have := forced_rows _ hm x (by simp [hfo])
+        simp only at this
+        exact ⟨by rw [← hk]; exact this.1, by simp [this.2]⟩
+
+open Moto.Spec.Names in
+/-- a source given with `bas,a`: the extension without the option is `BAS` -/
+theorem diskSource_ext_of_basA (src : Str) (h : (diskSource src).extWithOption = Tape.str "BAS,A") : (diskSource src).ext = Tape.str "BAS" := by
+  obtain ⟨pre, base, rfl, hp, hb⟩ := path_split src
+  unfold diskSource at h ⊢
+  rw [baseName_split pre base hp hb] at h ⊢
+  rcases rfind_split 46 base with ⟨_, hno⟩ | ⟨i, _, p, post, hsplit, _, hpost⟩
+  · rw [stemExt_nodot base hno] at h
+    simp only at h
+    exact absurd h (by decide)
+  · have hse : stemExt base = (p, some post) := by rw [hsplit]; exact stemExt_dot p post hpost
+    rw [hse] at h ⊢
+    simp only at h ⊢
+    have hl : post.length = 5 := by
+      have := congrArg List.length h
+      simpa [upper, Tape.str] using this
+    have hopt : hasOption (pre ++ base) = true := by
+      unfold hasOption
+      have hrev : ((pre ++ base).reverse.take 2).reverse = post.drop 3 := by
+        rw [List.take_reverse, List.reverse_reverse, hsplit]
+        have : pre ++ (p ++ 46 :: post) = (pre ++ p ++ [46]) ++ post := by simp
+        rw [this, List.length_append, hl, List.drop_append]
+        have e1 : (pre ++ p ++ [46]).length + 5 - 2 - (pre ++ p ++ [46]).length = 3 := by omega
+        rw [e1, List.drop_of_length_le (by omega)]; rfl
+      rw [hrev]
+      have : upper (post.drop 3) = (upper post).drop 3 := by simp [upper, List.map_drop]
+      rw [this, h]
+      decide
+    rw [if_pos hopt]
+    have : upper post.dropLast.dropLast = (upper post).dropLast.dropLast := by
+      simp [upper, List.dropLast_eq_take, List.map_take]
+    rw [this, h]
+    decide
+
+open Moto.Spec.Names in
+/-- **the stored extension of a source is its extension (without the option)** -/
+theorem dispatch_of_diskSource (src : Str) :
+    (dispatch (diskSource src).name (diskSource src).ext (diskSource src).extWithOption).2.2 = (diskSource src).ext := by
+  rcases dispatch_stored_ext (diskSource src).name (diskSource src).ext (diskSource src).extWithOption with h | ⟨hw, hb⟩
+  · exact h
+  · rw [hb, diskSource_ext_of_basA src hw]
+
 end Moto.Disk
